@@ -100,6 +100,11 @@ CHECKS = {
          "An enumeration of 263 single-feature databases (18 special strings x {product, version, cdn_path} x {start, middle, end, alone}, build/keyring/hash-case/tie/UTC-offset variants) and proptest databases (1-6 products, 1-4 builds, adversarial strings, mixed offsets, ties); every product x {versions, cdns, bgdl} x {RibbitClient v1, v2, TactClient http} + v1 summary is compared by typed column. Hostile traffic: unknown product/endpoint, wrong arity, empty, 64 KiB, non-UTF-8, unknown version prefix, HTTP garbage (thorough: never-terminated and bursts) must get an error or a close, never data, while a well-formed probe keeps being answered; server task panics are detected.",
          "Real kernel sockets on the loopback; the multi-client clause interleaves tasks on one runtime thread and is best effort; a probe counts as unanswered only after 4 missed attempts (>= 2 minutes); other watchdog hits are infrastructure trouble.",
          "DESIGN.md §3 C15"),
+ "C13": ("net+pbt", "exploration",
+         "generated fault assignments and query scripts against three loopback mock endpoints owned by the harness (two HTTP mocks in the TACT HTTPS/HTTP slots, one Ribbit TCP mock), judged by a decision table derived from the statement on the mocks' ordered request logs and the returned documents; exhaustive sweep of TCP segmentations",
+         "Behaviours per endpoint: valid BPSV, valid V1 MIME in 8 wire formats, 5xx, 429 +- Retry-After, 4xx (some with a valid body), 200 with 6 malformed bodies, refused, closed at accept / in the head / in the body (thorough: stall until the client's own timeout) x 5 endpoint classes x memory cache or cache directory x TTLs ZERO/1 h x scripts with second queries, behaviour flips and a new client on the same cache directory. Clauses: contact order HTTPS, HTTP, TCP; next endpoint iff the failure was transient; definitive refusal stops; first well-formed answer returned; nothing cached after a failed query; cache hit without traffic iff TTL 1 h. Every single split point of a 1-row answer in each wire format (and random multi-splits up to 13 KiB) must parse to the unsplit document.",
+         "TLS is not exercised (the client accepts http:// URLs in the HTTPS slot); packet splits are best effort on the real kernel (TCP_NODELAY, 2 ms gaps); mocks answer Connection: close. Every failure must reproduce in one of two re-executions, otherwise it is infrastructure trouble (exit 2).",
+         "DESIGN.md §3 C13"),
 }
 
 NOT_YET = "check not built yet in this session (work in progress; see DESIGN.md §3 for the planned generator and oracle)"
